@@ -89,7 +89,7 @@ CRYPTO_FAILS = ('MAC tag mismatch', 'signature mismatch', 'no key for kid', 'cer
                 'AES-GCM authentication failed', 'AES key unwrap failed', 'x5chain certificate does not parse', 'signature check failed')
 
 
-def covered_spans(data):
+def covered_spans(data, sec_type=11):
     ''' Octet spans of the original encoding that the (first) integrity block covers, from the independent parser:
     primary block, target type/number/flags and data, security source, scope / additional-protected parameters,
     protected header and tag of each result (plus the security block's own type/number/flags when -2 is in scope).
@@ -99,7 +99,7 @@ def covered_spans(data):
     kids = outer.children
     covered = []
     outside = []
-    bib = next((kid for kid in kids[1:] if kid.children[0].value == 11), None)
+    bib = next((kid for kid in kids[1:] if kid.children[0].value == sec_type), None)
     if bib is None:
         return covered, outside
     bdata = bib.children[4]
@@ -130,7 +130,8 @@ def covered_spans(data):
             inner_base = base + val.start + val.head_len
             msg = cw.parse_all(bytes(raw[val.start + val.head_len:val.end]))
             covered.append((inner_base + msg.children[0].start, inner_base + msg.children[0].end, 'protected header'))
-            covered.append((inner_base + msg.children[-1].start, inner_base + msg.children[-1].end, 'tag / signature'))
+            if sec_type == 11:
+                covered.append((inner_base + msg.children[-1].start, inner_base + msg.children[-1].end, 'tag / signature'))
     if scope.get(0, 0) & 1:
         covered.append((kids[0].start, kids[0].end, 'primary block'))
     for kid in kids[1:]:
@@ -215,7 +216,7 @@ def bit_flips(data, rng, limit=None):
         yield bytes(mut), 'flip octet %d bit %d' % (pos, bit), pos
 
 
-def field_mutants(data, rng):
+def field_mutants(data, rng, sec_type=11):
     ''' Field-level edits on the decoded bundle, re-encoded with correct CRCs. '''
     dec, _ = bpv7.decode(data)
     out = []
@@ -241,7 +242,7 @@ def field_mutants(data, rng):
         return next(blk for blk in w['blocks'] if blk['type'] == 1)
 
     def bib(w):
-        return next(blk for blk in w['blocks'] if blk['type'] == 11)
+        return next(blk for blk in w['blocks'] if blk['type'] == sec_type)
 
     emit('target data first octet', lambda w: target(w).update(data=bytes([target(w)['data'][0] ^ 1]) + target(w)['data'][1:]) if target(w)['data'] else target(w).update(data=b'\x00'))
     emit('target data appended octet', lambda w: target(w).update(data=target(w)['data'] + b'\x00'))
@@ -276,7 +277,7 @@ def field_mutants(data, rng):
     emit('tag / signature', lambda w: edit_asb(w, lambda a: flip_in_result(a, 3)))
     emit('security block flags (not in default scope)', lambda w: bib(w).update(flags=bib(w)['flags'] ^ 1))
     for blk in dec['blocks']:
-        if blk['type'] not in (1, 11):
+        if blk['type'] not in (1, sec_type):
             num = blk['num']
             emit('out-of-scope block %d data' % num, lambda w, num=num: [b.update(data=b['data'] + b'\x01') for b in w['blocks'] if b['num'] == num])
             emit('out-of-scope block %d flags' % num, lambda w, num=num: [b.update(flags=b['flags'] ^ 2) for b in w['blocks'] if b['num'] == num])
